@@ -13,7 +13,6 @@ NOT_APPLICABLE = {
  "C21": "Quantifies over schedules of block translation, caching and eviction across jitcore.py, JitCore.c and the disassembler; whole-history property of an interpreter loop in C.",
  "C22": "Self-modifying-code history property spanning vm_mngr.c write tracking, the C execution loop and Python invalidation; not a single-call or single-structure property.",
  "C23": "Breakpoint history property over the emulation loop (Python + C + translated code).",
- "C31": "Recursive disassembly over arbitrary bytes depends on every architecture's table-driven decoder (C15) and a work-list algorithm over them; no decoder contract to build on.",
  "C41": "Dynamic symbolic execution of x86 programs under a jitter with a solver in the loop; whole-system across Python, C and z3.",
  "C49": "Faulting-instruction atomicity is a property of generated C/LLVM/Python block code and the C execution loop across back ends; no single function contract carries it.",
 }
